@@ -64,7 +64,7 @@ def cfg_outputs(tier):
 
 def cfg_fixups(tier):
     return GenConfig(solids=False, displacements=False, meta=False, strata=False, membership=False, max_outputs=0, max_keys=2,
-                     max_ents=3, nodeid=False)
+                     max_ents=3, nodeid=False, fixup_big_ids=True)
 
 
 def cfg_membership(tier):
